@@ -272,7 +272,7 @@ func (r *Run) Violate(v *Violation) {
 	if f := r.matchFinding(v); f != nil {
 		if r.knownSeen[f.ID] == 0 {
 			r.knownOrder = append(r.knownOrder, f.ID)
-			fmt.Printf("KNOWN-FINDING: property=%s %s: %s (first seen this run: %s on %s)\n", r.Prop, f.ID, f.What, strconv.Quote(v.Expr), docBrief(v))
+			fmt.Printf("KNOWN-FINDING: property=%s %s: %s (first seen this run: %s on %s)\n", r.Prop, f.ID, f.What, clip(strconv.QuoteToASCII(v.Expr), 300), docBrief(v))
 		}
 		r.knownSeen[f.ID]++
 		return
@@ -289,10 +289,17 @@ func (r *Run) Violate(v *Violation) {
 	r.violations = append(r.violations, v)
 	path := r.writeReplay(v)
 	fmt.Printf("VIOLATION property=%s replay=%s\n", r.Prop, path)
-	fmt.Printf("  api=%s expr=%s doc=%s\n  expected: %s\n  observed: %s\n", v.API, strconv.Quote(v.Expr), docBrief(v), v.Expected, v.Observed)
+	fmt.Printf("  api=%s expr=%s doc=%s\n  expected: %s\n  observed: %s\n", v.API, clip(strconv.QuoteToASCII(v.Expr), 600), docBrief(v), clip(v.Expected, 1500), clip(v.Observed, 1500))
 	if v.Detail != "" {
 		fmt.Printf("  detail: %s\n", v.Detail)
 	}
+}
+
+func clip(s string, n int) string {
+	if len(s) > n {
+		return s[:n] + "…"
+	}
+	return s
 }
 
 func docBrief(v *Violation) string {
@@ -391,8 +398,47 @@ func (r *Run) exec(w Workload) {
 	}
 	var wg sync.WaitGroup
 	var logMu sync.Mutex
+	// Stall alarm: a case that has been running for VH_CASE_ALARM seconds
+	// (default 90; cases take micro- to milliseconds) only *nominates* a
+	// hang: the child exits with status 3 and the driver re-runs the
+	// unfinished batches case by case in a fresh process to confirm it.
+	alarm := int64(90)
+	if s := os.Getenv("VH_CASE_ALARM"); s != "" {
+		if v, err := strconv.ParseInt(s, 10, 64); err == nil && v > 0 {
+			alarm = v
+		}
+	}
+	type slot struct{ idx, since int64 }
+	slots := make([]slot, workers)
+	stopMon := make(chan struct{})
+	go func() {
+		tk := time.NewTicker(500 * time.Millisecond)
+		defer tk.Stop()
+		for {
+			select {
+			case <-stopMon:
+				return
+			case <-tk.C:
+				now := time.Now().UnixNano()
+				for k := range slots {
+					since := atomic.LoadInt64(&slots[k].since)
+					if since != 0 && now-since > alarm*1e9 {
+						idx := atomic.LoadInt64(&slots[k].idx)
+						logMu.Lock()
+						r.logf("STALL %s %d\n", w.Name, idx)
+						if r.batchLog != nil {
+							r.batchLog.Sync()
+						}
+						fmt.Printf("STALL workload=%s case=%d has been running for more than %ds\n", w.Name, idx, alarm)
+						os.Exit(3)
+					}
+				}
+			}
+		}
+	}()
 	for k := 0; k < workers; k++ {
 		wg.Add(1)
+		k := k
 		go func() {
 			defer wg.Done()
 			t := r.NewTally()
@@ -409,8 +455,11 @@ func (r *Run) exec(w Workload) {
 				r.logf("B %s %d %d\n", w.Name, lo, hi)
 				logMu.Unlock()
 				for i := lo; i < hi; i++ {
+					atomic.StoreInt64(&slots[k].idx, int64(i))
+					atomic.StoreInt64(&slots[k].since, time.Now().UnixNano())
 					w.Do(i, t)
 				}
+				atomic.StoreInt64(&slots[k].since, 0)
 				logMu.Lock()
 				r.logf("D %s %d %d\n", w.Name, lo, hi)
 				logMu.Unlock()
@@ -419,6 +468,7 @@ func (r *Run) exec(w Workload) {
 		}()
 	}
 	wg.Wait()
+	close(stopMon)
 	r.mu.Lock()
 	r.workloads = append(r.workloads, map[string]interface{}{"name": w.Name, "cases": w.N, "wall_s": round2(time.Since(t0).Seconds())})
 	r.mu.Unlock()
